@@ -34,9 +34,13 @@ def GoodClientUnaffected (cfg : Cfg) : Prop :=
 /-- (3) distinct connections have distinct service instances and distinct object tables, always -/
 def Isolation (cfg : Cfg) : Prop := ∀ ops : List Op, Iso (run (init cfg) ops)
 
+/-- the configurations of the code as it is: how the pool's end-of-stream path treats a reused descriptor number is read
+off the live code on every run (`Gen.Srv.poolDropSparesNewcomer`) -/
+def ofCode (cfg : Cfg) : Prop := cfg.spare = Gen.Srv.poolDropSparesNewcomer
+
 /-- the property at full strength, for the server kinds of its quantifier -/
 def C16_statement : Prop :=
-  ∀ cfg : Cfg, cfg.kind ≠ .oneshot → (cfg.kind = .pool → 0 < cfg.nb) →
+  ∀ cfg : Cfg, ofCode cfg → cfg.kind ≠ .oneshot → (cfg.kind = .pool → 0 < cfg.nb) →
     AcceptSurvives cfg ∧ GoodClientUnaffected cfg ∧ Isolation cfg
 
 /-! ### threaded and forking servers: everything holds -/
@@ -95,12 +99,13 @@ theorem accept_survives_pool (cfg : Cfg) (hk : cfg.kind = .pool) (ops : List Op)
 /-- **good_client_unaffected** for the pool, under the hypothesis that fewer than `nbThreads` workers are blocked at
 every point of the run (the proof forces it: see `C16_pool_counterexample`): whatever the other clients do, every call
 of a served client is answered correctly -/
-theorem good_client_unaffected_pool (cfg : Cfg) (hk : cfg.kind = .pool) (before : List Op) (g : Nat) (ops : List Op)
+theorem good_client_unaffected_pool (cfg : Cfg) (hk : cfg.kind = .pool) (hspare : cfg.spare = true) (before : List Op)
+    (g : Nat) (ops : List Op)
     (hb : ∀ op ∈ before, op.c16 = true) (hr : Ready ((run (init cfg) before).cli g))
     (hfree : FreeWorkerAlong (run (init cfg) before) ops) (hops : OthersAndPings g ops) :
     pongs g ops (runObs (run (init cfg) before) ops) := by
   obtain ⟨hup, hq⟩ := run_pool_inv cfg hk before hb
-  exact unaffected_run_pool g (by rw [run_cfg]; exact hk) hup hq hr ops hfree hops
+  exact unaffected_run_pool g (by rw [run_cfg]; exact hk) (by rw [run_cfg]; exact hspare) hup hq hr ops hfree hops
 
 /-- each step of it: a served client's request is answered as soon as one worker is free -/
 theorem pool_call_answered (cfg : Cfg) (hk : cfg.kind = .pool) (ops : List Op) (hops : ∀ op ∈ ops, op.c16 = true)
@@ -117,7 +122,7 @@ theorem pool_call_answered (cfg : Cfg) (hk : cfg.kind = .pool) (ops : List Op) (
 /-! ### the pool server: the statement fails (findings `C16:pool:>=nbThreads-incomplete-frame-clients`,
 `C16:pool:auth-stall-blocks-accept`) -/
 
-def poolCfg : Cfg := { kind := .pool, auth := false, nb := 2 }
+def poolCfg : Cfg := { kind := .pool, auth := false, nb := 2, spare := Gen.Srv.poolDropSparesNewcomer }
 /-- three clients connect; two of them send the header of a frame announcing 0xFFFFFFFF bytes and nothing else -/
 def starve : List Op :=
   [.connect 1 .good, .connect 2 .good, .connect 3 .good,
@@ -136,13 +141,13 @@ theorem C16_pool_witness :
 /-- **C16_pool_counterexample**: the full statement is false on the pinned code (worker starvation) -/
 theorem C16_pool_counterexample : ¬ C16_statement := by
   intro h
-  have h2 := (h poolCfg (by decide) (by decide)).2.1 starve 3 [.call 3 .ping] (by decide)
+  have h2 := (h poolCfg rfl (by decide) (by decide)).2.1 starve 3 [.call 3 .ping] (by decide)
     (by simp only [Ready]; decide) (by intro op hop; simp at hop; subst hop; exact ⟨rfl, fun _ => rfl⟩)
   have hobs : runObs (run (init poolCfg) starve) [.call 3 .ping] = [some .timeout] := by decide
   rw [hobs] at h2
   simp [pongs] at h2
 
-def stallCfg : Cfg := { kind := .pool, auth := true, nb := 2 }
+def stallCfg : Cfg := { kind := .pool, auth := true, nb := 2, spare := Gen.Srv.poolDropSparesNewcomer }
 /-- a client connects to a pool server with an authenticator and sends nothing -/
 def stall : List Op := [.connect 1 .good, .connect 2 .silent]
 
@@ -157,23 +162,56 @@ theorem C16_pool_stall_witness :
 /-- **C16_pool_stall_counterexample**: the full statement is false on the pinned code (accept thread stalled) -/
 theorem C16_pool_stall_counterexample : ¬ C16_statement := by
   intro h
-  have h1 := ((h stallCfg (by decide) (by decide)).1 stall (by decide)).free
+  have h1 := ((h stallCfg rfl (by decide) (by decide)).1 stall (by decide)).free
   revert h1
   decide
+
+/-! ### the pool server and reused descriptor numbers (`C16:pool:fd-reuse-drops-newcomer`, repaired) -/
+
+/-- **the obligation the pool theorems rest on**: the code's end-of-stream path removes only the connection it was
+serving.  It is a measured fact of the live code (`harness/gen_server.py` runs the real `_serve_requests` on stand-in
+connections); on a tree where `_drop_connection(fd)` pops whatever `fd_to_conn` holds under that number, this fails -/
+theorem pool_drop_spares_newcomer : Gen.Srv.poolDropSparesNewcomer = true := by decide
+
+/-- with it, the blocking `on_disconnect` of a departing client changes nothing for anybody else, whoever connected in the
+meantime and whatever descriptor number they were given: only that client's own record changes -/
+theorem release_touches_only_its_own (s t : St) (o : Obs) (k g : Nat) (hk : s.cfg.kind = .pool)
+    (hs : s.cfg.spare = true) (hst : step s (.releaseHook k) = .ok (t, o)) (hg : g ≠ k)
+    (hb : (s.cli g).phase ≠ .backlog) (hq : g ∉ s.queue) : Same (s.cli g) (t.cli g) :=
+  others_untouched_pool hk hs (.releaseHook k) rfl g (by simp [Op.client, Ne.symm hg]) hb hq hst
+
+/-- the interleaving: client 1 arms its service's `on_disconnect` to block and goes away; a worker closes its connection
+(descriptor number free) and sits in the hook; client 3 connects and is given that number; the hook returns -/
+def reuse : List Op :=
+  [.connect 1 .good, .call 1 .arm, .connect 2 .good, .abruptClose 1, .connectReuse 3 1, .call 3 .ping, .releaseHook 1]
+
+/-- repaired code: the newcomer is served before and after the release, nothing remains of client 1 -/
+theorem reuse_ok :
+    runObs (run (init { kind := .pool, auth := false, nb := 2, spare := true }) reuse) [.call 3 .ping, .call 2 .ping] =
+      [some (.reply .pong), some (.reply .pong)] ∧
+    ((run (init { kind := .pool, auth := false, nb := 2, spare := true }) reuse).cli 1).inFd = false ∧
+    ((run (init { kind := .pool, auth := false, nb := 2, spare := true }) reuse).cli 3).inFd = true := by decide
+
+/-- **C16_pool_fd_reuse_counterexample**: with the pinned `_drop_connection(fd)` (remove whatever is stored under the number)
+the worker coming out of client 1's hook closes client 3's connection: its disconnect hook runs, it gets end-of-stream -/
+theorem C16_pool_fd_reuse_counterexample :
+    runObs (run (init { kind := .pool, auth := false, nb := 2, spare := false }) reuse) [.call 3 .ping, .call 2 .ping] =
+      [some .eof, some (.reply .pong)] ∧
+    ((run (init { kind := .pool, auth := false, nb := 2, spare := false }) reuse).cli 3).discHooks = 1 := by decide
 
 /-- everything the property says: in full for the threaded and forking servers; isolation for every kind; for the pool
 under the two hypotheses the counterexamples show to be necessary -/
 theorem C16_partial (cfg : Cfg) :
     ((cfg.kind = .threaded ∨ cfg.kind = .forking) → AcceptSurvives cfg ∧ GoodClientUnaffected cfg) ∧
     Isolation cfg ∧
-    (cfg.kind = .pool →
+    (cfg.kind = .pool → cfg.spare = true →
       (∀ ops : List Op, (∀ op ∈ ops, op.c16 = true) → (∀ op ∈ ops, ∀ k, op ≠ .connect k .silent) →
         Accepting (run (init cfg) ops)) ∧
       (∀ (before : List Op) (g : Nat) (ops : List Op), (∀ op ∈ before, op.c16 = true) →
         Ready ((run (init cfg) before).cli g) → FreeWorkerAlong (run (init cfg) before) ops → OthersAndPings g ops →
         pongs g ops (runObs (run (init cfg) before) ops))) :=
   ⟨fun hk => ⟨accept_survives cfg hk, good_client_unaffected cfg hk⟩, isolation cfg,
-   fun hk => ⟨accept_survives_pool cfg hk, good_client_unaffected_pool cfg hk⟩⟩
+   fun hk hs => ⟨accept_survives_pool cfg hk, good_client_unaffected_pool cfg hk hs⟩⟩
 
 /-! ### non-vacuity: concrete hostile histories meet the hypotheses and reach non-trivial states -/
 
